@@ -1002,8 +1002,12 @@ class Inliner:
                 body = list(g.node.body)
                 if body and isinstance(body[0], ast.Expr) and isinstance(body[0].value, ast.Constant) and isinstance(body[0].value.value, str):
                     body = body[1:]
-                if not any(isinstance(x, ast.If) for x in body) or _stored_names(body):
-                    return c  # plain one-line helpers are handled by the expression-level look-through of the resolver
+                # (a one-line predicate stays a call: the guards it stands in are read through it by expand_predicates / the resolver)
+                oneliner = len(body) == 1 and isinstance(body[0], ast.Return) and body[0].value is not None \
+                    and not isinstance(body[0].value, (ast.BoolOp, ast.Compare)) and not (isinstance(body[0].value, ast.UnaryOp) and isinstance(body[0].value.op, ast.Not)) \
+                    and not any(isinstance(x, (ast.Lambda, ast.NamedExpr, ast.Yield, ast.YieldFrom, ast.Await, ast.ListComp, ast.SetComp, ast.DictComp, ast.GeneratorExp)) for x in ast.walk(body[0].value))
+                if (not oneliner and not any(isinstance(x, ast.If) for x in body)) or _stored_names(body):
+                    return c
                 boolean = any(isinstance(x, ast.Return) and isinstance(x.value, ast.Constant) and isinstance(x.value.value, bool) for s_ in body for x in [s_] + list(_own_nodes(s_)))
                 try:
                     # a predicate (some path returns a literal True / False) is written with and / or / not, so that the guards
@@ -1096,6 +1100,29 @@ class Inliner:
             def visit_Lambda(self, n):
                 return n
 
+            def visit_ListComp(self, n):
+                nonlocal changed
+                self.generic_visit(n)
+                # [f(v) for v in (a, b, c)] over a short display of names is [f(a), f(b), f(c)]
+                if len(n.generators) == 1 and not n.generators[0].ifs and not n.generators[0].is_async and isinstance(n.generators[0].target, ast.Name) \
+                        and isinstance(n.generators[0].iter, (ast.Tuple, ast.List)) and 1 <= len(n.generators[0].iter.elts) <= 6 \
+                        and all(isinstance(e_, (ast.Name, ast.Constant, ast.Attribute)) for e_ in n.generators[0].iter.elts):
+                    tv = n.generators[0].target.id
+                    elts = [_Rename({tv: e_}).visit(copy.deepcopy(n.elt)) for e_ in n.generators[0].iter.elts]
+                    changed = True
+                    log.append(f"{qn}: comprehension over a display of {len(elts)} names written out at line {getattr(n, 'lineno', '?')}")
+                    return ast.fix_missing_locations(ast.copy_location(ast.List(elts=elts, ctx=ast.Load()), n))
+                # [x for _ in range(k)] with x a name / literal (the same object every time) is [x] * k
+                if len(n.generators) == 1 and not n.generators[0].ifs and not n.generators[0].is_async and isinstance(n.generators[0].target, ast.Name) and isinstance(n.elt, (ast.Name, ast.Constant)) \
+                        and not (isinstance(n.elt, ast.Name) and n.elt.id == n.generators[0].target.id):
+                    it = n.generators[0].iter
+                    if isinstance(it, ast.Call) and isinstance(it.func, ast.Name) and it.func.id == "range" and len(it.args) == 1 and not it.keywords:
+                        changed = True
+                        log.append(f"{qn}: `[x for _ in range(k)]` read as `[x] * k` at line {getattr(n, 'lineno', '?')}")
+                        new = ast.BinOp(left=ast.List(elts=[n.elt], ctx=ast.Load()), op=ast.Mult(), right=it.args[0])
+                        return ast.fix_missing_locations(ast.copy_location(new, n))
+                return n
+
             def visit_Call(self, n):
                 nonlocal changed
                 self.generic_visit(n)
@@ -1104,6 +1131,14 @@ class Inliner:
                     changed = True
                     log.append(f"{qn}: `.T.{fn.attr}()` read as `.{fn.attr}('F')` at line {getattr(n, 'lineno', '?')}")
                     new = ast.Call(func=ast.Attribute(value=fn.value.value, attr=fn.attr, ctx=ast.Load()), args=[ast.Constant(value="F")], keywords=[])
+                    return ast.fix_missing_locations(ast.copy_location(new, n))
+                if isinstance(fn, ast.Attribute) and fn.attr == "ravel" and isinstance(fn.value, ast.Call) and ast.unparse(fn.value.func) in ("numpy.array", "np.array") \
+                        and len(n.args) + len(n.keywords) <= 1 and all(k.arg == "order" for k in n.keywords):
+                    # ravel of a fresh copy (numpy.array(..) always copies) is flatten
+                    order = [k.value for k in n.keywords] + list(n.args)
+                    changed = True
+                    log.append(f"{qn}: `numpy.array(..).ravel(..)` read as `.flatten(..)` at line {getattr(n, 'lineno', '?')}")
+                    new = ast.Call(func=ast.Attribute(value=fn.value, attr="flatten", ctx=ast.Load()), args=order, keywords=[])
                     return ast.fix_missing_locations(ast.copy_location(new, n))
                 if isinstance(fn, ast.Name) and fn.id == "list" and len(n.args) == 1 and not n.keywords and isinstance(n.args[0], ast.Call) and not n.args[0].keywords and len(n.args[0].args) == 2 \
                         and ast.unparse(n.args[0].func) in ("itertools.repeat", "repeat") and "repeat" not in f.params:
@@ -1622,6 +1657,8 @@ class Inliner:
                 return [e] if e.value else []
             if isinstance(e, ast.JoinedStr):
                 return list(e.values)
+            if isinstance(e, ast.Call) and isinstance(e.func, ast.Name) and e.func.id == "str" and len(e.args) == 1 and not e.keywords:
+                return [ast.FormattedValue(value=e.args[0], conversion=115, format_spec=None)]  # "a" + str(x) is f"a{x!s}"
             return [ast.FormattedValue(value=e, conversion=-1, format_spec=None)]
 
         class R(ast.NodeTransformer):
@@ -1852,6 +1889,12 @@ class Inliner:
                         for x in ast.walk(st_):
                             if isinstance(x, ast.Name) and x.id in tn:
                                 rebound.add(id(x))
+                if isinstance(other, (ast.ListComp, ast.SetComp, ast.DictComp, ast.GeneratorExp)) and id(other) not in inside:
+                    # a comprehension's targets are its own
+                    tn = {x.id for g_ in other.generators for x in ast.walk(g_.target) if isinstance(x, ast.Name)}
+                    for x in ast.walk(other):
+                        if isinstance(x, ast.Name) and x.id in tn:
+                            rebound.add(id(x))
             return any(isinstance(n, ast.Name) and isinstance(n.ctx, ast.Load) and n.id in names and id(n) not in inside and id(n) not in rebound for n in _own_nodes(fn))
 
         def walk(stmts: List[ast.stmt]) -> None:
@@ -1863,14 +1906,45 @@ class Inliner:
                 tgt = st.targets[0] if isinstance(st, ast.Assign) and len(st.targets) == 1 else st.target if isinstance(st, ast.AnnAssign) and st.value is not None else None
                 val = getattr(st, "value", None)
                 empty = isinstance(val, ast.Dict) and not val.keys or (isinstance(val, ast.Call) and isinstance(val.func, ast.Name) and val.func.id == "dict" and not val.args and not val.keywords)
-                if isinstance(tgt, ast.Name) and empty and isinstance(nxt, ast.For) and not nxt.orelse and nxt.body:
-                    d = tgt.id
+                # `L = []` directly followed by `for T in IT: [if COND:] L.append(V)`  ->  `L = [V for T in IT if COND]`
+                if isinstance(tgt, ast.Name) and isinstance(val, ast.List) and not val.elts and isinstance(nxt, ast.For) and not nxt.orelse and len(nxt.body) == 1:
+                    L = tgt.id
+                    inner = nxt.body[0]
+                    cond = None
+                    if isinstance(inner, ast.If) and not inner.orelse and len(inner.body) == 1:
+                        cond, inner = inner.test, inner.body[0]
+                    if isinstance(inner, ast.Expr) and isinstance(inner.value, ast.Call) and isinstance(inner.value.func, ast.Attribute) and inner.value.func.attr == "append" \
+                            and isinstance(inner.value.func.value, ast.Name) and inner.value.func.value.id == L and len(inner.value.args) == 1 and not inner.value.keywords \
+                            and not isinstance(inner.value.args[0], ast.Starred):
+                        V = inner.value.args[0]
+                        parts = [x for x in (cond, V, nxt.iter) if x is not None]
+                        tnames = {n.id for n in ast.walk(nxt.target) if isinstance(n, ast.Name)}
+                        uses_L = any(isinstance(n, ast.Name) and n.id == L for x in parts for n in ast.walk(x))
+                        no_walrus = not any(isinstance(n, (ast.NamedExpr, ast.Yield, ast.YieldFrom, ast.Await)) for x in parts for n in ast.walk(x))
+                        if not uses_L and no_walrus and all(isinstance(n, (ast.Name, ast.Tuple, ast.List, ast.Store, ast.Starred)) for n in ast.walk(nxt.target)) and not loads_outside(tnames, nxt):
+                            comp = ast.ListComp(elt=copy.deepcopy(V), generators=[ast.comprehension(target=copy.deepcopy(nxt.target), iter=copy.deepcopy(nxt.iter),
+                                                                                                   ifs=[copy.deepcopy(cond)] if cond is not None else [], is_async=0)])
+                            new = ast.Assign(targets=[ast.Name(id=L, ctx=ast.Store())], value=comp)
+                            ast.copy_location(new, nxt)
+                            ast.fix_missing_locations(new)
+                            stmts[i:i + 2] = [new]
+                            changed = True
+                            self.log.append(f"{f.qualname}: loop filling `{L}` read as a list comprehension")
+                            continue
+                is_attr = isinstance(tgt, ast.Attribute) and isinstance(tgt.value, ast.Name)
+                if (isinstance(tgt, ast.Name) or is_attr) and empty and isinstance(nxt, ast.For) and not nxt.orelse and nxt.body:
+                    d = tgt.id if isinstance(tgt, ast.Name) else f"{tgt.value.id}.{tgt.attr}"
+
+                    def is_d(x):
+                        if is_attr:
+                            return isinstance(x, ast.Attribute) and isinstance(x.value, ast.Name) and x.value.id == tgt.value.id and x.attr == tgt.attr
+                        return isinstance(x, ast.Name) and x.id == d
                     body = list(nxt.body)
                     subst: Dict[str, ast.AST] = {}
                     ok = True
                     while body and isinstance(body[0], ast.Assign) and len(body[0].targets) == 1 and isinstance(body[0].targets[0], ast.Name) and len(body) > 1:
                         v = _Rename(dict(subst)).visit(copy.deepcopy(body[0].value))
-                        if not pure(v) or body[0].targets[0].id == d:
+                        if not pure(v) or body[0].targets[0].id == d or (is_attr and body[0].targets[0].id == tgt.value.id):
                             ok = False
                             break
                         subst[body[0].targets[0].id] = v
@@ -1880,19 +1954,19 @@ class Inliner:
                         cond = body[0].test
                         body = body[0].body
                     store = body[0] if ok and len(body) == 1 else None
-                    if isinstance(store, ast.Assign) and len(store.targets) == 1 and isinstance(store.targets[0], ast.Subscript) and isinstance(store.targets[0].value, ast.Name) \
-                            and store.targets[0].value.id == d:
+                    if isinstance(store, ast.Assign) and len(store.targets) == 1 and isinstance(store.targets[0], ast.Subscript) and is_d(store.targets[0].value):
                         K, V = store.targets[0].slice, store.value
                         parts = [x for x in (cond, K, V, nxt.iter) if x is not None]
                         tnames = {n.id for n in ast.walk(nxt.target) if isinstance(n, ast.Name)}
-                        uses_d = any(isinstance(n, ast.Name) and n.id == d for x in parts for n in ast.walk(x)) or any(
-                            isinstance(n, ast.Name) and n.id == d for v in subst.values() for n in ast.walk(v))
+                        uses_d = any(is_d(n) for x in parts for n in ast.walk(x)) or any(is_d(n) for v in subst.values() for n in ast.walk(v))
+                        if is_attr and tgt.value.id in {n.id for n in ast.walk(nxt.target) if isinstance(n, ast.Name)}:
+                            uses_d = True
                         if not uses_d and (cond is None or pure(cond)) and not loads_outside(set(subst) | tnames, nxt) and not (set(subst) & tnames):
                             ren = _Rename(dict(subst))
                             comp = ast.DictComp(key=ren.visit(copy.deepcopy(K)), value=ren.visit(copy.deepcopy(V)),
                                                 generators=[ast.comprehension(target=copy.deepcopy(nxt.target), iter=copy.deepcopy(nxt.iter),
                                                                               ifs=[ren.visit(copy.deepcopy(cond))] if cond is not None else [], is_async=0)])
-                            new = ast.Assign(targets=[ast.Name(id=d, ctx=ast.Store())], value=comp)
+                            new = ast.Assign(targets=[copy.deepcopy(tgt)], value=comp)
                             ast.copy_location(new, nxt)
                             ast.fix_missing_locations(new)
                             stmts[i:i + 2] = [new]
